@@ -32,8 +32,8 @@ def outcome(fn, env):
         return ("exc", type(e).__name__)
 
 
-def check(acc, tag, ast, envs):
-    text = rp.render(ast)
+def check(acc, tag, ast, envs, text=None):
+    text = rp.render(ast) if text is None else text
     cl = rp.classify(text)
     if cl[0] != "accept" or cl[1] != ast:
         acc.add("ambiguous_skipped")
@@ -90,6 +90,9 @@ def _work(units):
         elif u[0] == "case":
             _, tag, ast, envs = u
             check(acc, tag, ast, envs)
+        elif u[0] == "raw":
+            _, tag, ast, envs, text = u
+            check(acc, tag, ast, envs, text=text)
     return acc.out()
 
 
@@ -110,6 +113,20 @@ def units(tier):
         k = int(tag.rsplit(":", 1)[1])
         if tier == "thorough" or k in (1, 2, 3, 12, 20, 59, 60, 63, 64):
             out.append(("case", tag.split(":")[0], a, e))
+    # literal contents (backslash escapes, quotes, non-ASCII, separators) in group / operand / salt position,
+    # and the same contents inside comments of the source text
+    from ..enum import lits
+
+    for v in lits.NAMED + ["C:\\Users\\xavier", "\\x", "\\N{DASH}", "\\u12", "\\U0001", "\\777", "%d", "{", "}}", "$x", "`"]:
+        if "\n" in v or ('"' in v and "'" in v):
+            continue
+        a = ("prog", "exp", v, ("uid",), ("if", ("cmp", ("id", "f"), "==", ("lit", v)), ("ret", ((v, "1"), ("B", "1"))), ("else", ("ret", (("Z", "1"),)))))
+        envs = [{"uid": i, "f": f} for i in range(3) for f in (v, v + "x")]
+        out.append(("case", "literal", a, envs))
+        if "*/" not in v and "\r" not in v:
+            plain = ("prog", "exp", "s", ("uid",), ("ret", (("A", "1"), ("B", "1"))))
+            txt = f"// {v}\n/* {v} */ " + rp.render(plain) + f" // {v}"
+            out.append(("raw", "comment", plain, [{"uid": i} for i in range(3)], txt))
     # weighted multi-group returns, salts, no splitters (random draw, seeded identically)
     wv = (("A", "1"), ("B", "2"), (3, "0.5"), (-1.5, "0"))
     for salt in (None, "s", "é'\\"):
